@@ -609,7 +609,22 @@ def prove_lemmas(modname):
             ind = lem["induct"]
             statuses = []
             if ind is None:
-                r = check_valid(hs, g, used, want_model=False, max_fuel=lem.get("fuel", 3))
+                # explicit (quantifier-free) instances of earlier lemmas: ("name", {var: expression over this lemma's variables})
+                facts = []
+                for lname, binding in (lem.get("instances") or []):
+                    if lname not in proved:
+                        raise Unsupported("instance of unproved lemma %s" % lname)
+                    other = next(l for l in sm.lemmas if l["name"] == lname)
+                    st0 = State(dict(vars_))
+                    env2 = {vn: coerce(ev.ev_str(src, st0), other["vars"][vn]) for vn, src in binding.items()}
+                    missing_v = [vn for vn in other["vars"] if vn not in env2]
+                    if missing_v:
+                        raise Unsupported("instance of %s lacks %s" % (lname, missing_v))
+                    st2 = State(env2)
+                    hh = [truthy(ev.ev_str(h, st2)) for h in other["hyps"]]
+                    gg = truthy(ev.ev_str(other["goal"], st2))
+                    facts.append(z3.Implies(z3.And(*hh), gg) if hh else gg)
+                r = check_valid(hs + facts, g, used, want_model=False, max_fuel=lem.get("fuel", 3))
                 statuses.append(r["status"])
             else:
                 v = vars_[ind]
